@@ -8,6 +8,7 @@ Line-protocol driver (core-only, compiled).  One request line
 import GeomVerif.Driver.C01
 import GeomVerif.Driver.C02
 import GeomVerif.Driver.C03
+import GeomVerif.Driver.C04
 import GeomVerif.Driver.C08
 import GeomVerif.Driver.C09
 import GeomVerif.Driver.C16
@@ -18,6 +19,7 @@ def dispatch (op : String) (inp go : Sexp) : Option Reply :=
   if op.startsWith "C01." then Driver.C01.handle op inp go
   else if op.startsWith "C02." then Driver.C02.handle op inp go
   else if op.startsWith "C03." then Driver.C03.handle op inp go
+  else if op.startsWith "C04." then Driver.C04.handle op inp go
   else if op.startsWith "C08." then Driver.C08.handle op inp go
   else if op.startsWith "C09." then Driver.C09.handle op inp go
   else if op.startsWith "C16." then Driver.C16.handle op inp go
